@@ -17,6 +17,8 @@
  */
 
 #include "builtin_tab.h"
+
+#include <memory>
 #include <blocc/parse_expression.h>
 #include <blocc/exception_parse.h>
 #include <blocc/context.h>
@@ -40,7 +42,8 @@ Value& TABExpression::value(Context & ctx) const
   if (n < 0)
     throw RuntimeError(EXC_RT_INDEX_RANGE_S, a0.toString().c_str());
 
-  Collection * tab = nullptr;
+  /* owned here until it is complete: evaluating an item may raise */
+  std::unique_ptr<Collection> tab;
   Type item_type;
   do
   {
@@ -55,27 +58,24 @@ Value& TABExpression::value(Context & ctx) const
         throw RuntimeError(EXC_RT_OUT_OF_DIMENSION);
       /* initialize with the type of value */
       if (a1.isNull())
-        tab = new Collection(a1.type().levelUp());
+        tab.reset(new Collection(a1.type().levelUp()));
       else if (a1.type() == Type::ROWTYPE)
       {
         if (a1.type().level() > 0)
-          tab = new Collection(a1.collection()->table_decl(), a1.type().level()+1);
+          tab.reset(new Collection(a1.collection()->table_decl(), a1.type().level()+1));
         else
-          tab = new Collection(a1.tuple()->tuple_decl(), a1.type().level()+1);
+          tab.reset(new Collection(a1.tuple()->tuple_decl(), a1.type().level()+1));
       }
       else if (a1.type().level() > 0)
-        tab = new Collection(a1.collection()->table_type().levelUp());
+        tab.reset(new Collection(a1.collection()->table_type().levelUp()));
       else
-        tab = new Collection(a1.type().levelUp());
+        tab.reset(new Collection(a1.type().levelUp()));
       tab->reserve(n);
       item_type = tab->table_type().levelDown();
     }
     /* all items must be uniform */
     else if (a1.type() != item_type)
-    {
-      delete tab;
       throw RuntimeError(EXC_RT_VARYING_COLLECTION);
-    }
     /* break now for an empty collection */
     if (n == 0)
       break;
@@ -84,7 +84,7 @@ Value& TABExpression::value(Context & ctx) const
     else
       tab->push_back(std::move(a1));
   } while (--n > 0);
-  return ctx.allocate(Value(tab));
+  return ctx.allocate(Value(tab.release()));
 }
 
 std::string TABExpression::typeName(Context& ctx) const
